@@ -249,6 +249,12 @@ func (ex *Exec) callAssertsAt(f *Frame, st *State, x ssa.Instruction, site strin
 			cas = append(cas, casT{c, pat, ordS})
 		}
 	}
+	imported := map[string]bool{}
+	if f.fn.Pkg != nil {
+		for _, ip := range f.fn.Pkg.Pkg.Imports() {
+			imported[ip.Name()] = true
+		}
+	}
 	imp := func(t string) string {
 		if guard == "" {
 			return t
@@ -266,7 +272,12 @@ func (ex *Exec) callAssertsAt(f *Frame, st *State, x ssa.Instruction, site strin
 			}
 		}
 		for pn, pb := range pbs {
-			// the caller's names win (a recursive call has the same parameter names)
+			// the caller's names win (a recursive call has the same parameter names),
+			// and so do the packages the caller's package imports: a callee parameter
+			// called "rand" must not hide crypto/rand.Reader in the assertion
+			if imported[pn] {
+				continue
+			}
 			if _, own := ec.vars[pn]; !own || strings.HasPrefix(pn, "arg") {
 				ec.vars[pn] = pb
 			}
